@@ -38,7 +38,7 @@ VARS = ['X', 'Y', 'Z', 'W']
 INTERNAL = '_V'                 # a variable whose name starts with '_': left out of to_dataframe() unless include_internal=True
 ATTR_NAMES = ('lags', 'check', 'names', 'values', 'solve', 'copy', 'aliases', 'ALIASES', 'span')
 # attributes / methods every aliased model has: an alias named like one must be refused by the constructor (fix 4e03fd0)
-ALIAS_NAMES = ['A', 'B', 'C', 'D', 'y', 'Ax']
+ALIAS_NAMES = ['A', 'B', 'C', 'D', 'y', 'Ax', '_a', '_gdp', '__x']     # also names with leading underscores (accepted by the constructor)
 CTOR_KEYWORDS = ('default_value',)   # constructor keywords that are NOT kept as attributes (an alias of that name passes the clash check)
 SPANS = [[10, 11, 12], [0, 1, 2, 3], [5], [2000, 2001, 2002, 2003, 2004], [3, 1, 2]]
 S = c09.S
@@ -238,7 +238,7 @@ def rand_case(rng, max_ops):
             ivs.append([rename(rng, aliases, x, p=0.9), kwval()])
     seen = set()
     case['ivs'] = [kv for kv in ivs if not (kv[0] in seen or seen.add(kv[0]))]       # Python keywords are unique
-    pool = list(names) + (['Q'] if rng.random() < 0.3 else []) + ([rng.choice(ALIAS_NAMES)] if rng.random() < 0.15 else [])
+    pool = list(names) + (['Q'] if rng.random() < 0.3 else []) + ([rng.choice([a for a in ALIAS_NAMES if not a.startswith('_')])] if rng.random() < 0.15 else [])
     # (an alias name in the pool: add_variable(<alias name>) after construction is the door the constructor cannot close)
     rows = len(names)
     for _ in range(rng.randint(1, max_ops)):
@@ -356,6 +356,15 @@ def fixed_cases():
     mk(aliases=[['A', 'X']], strict=True, ops=[['setattr', 'A', S(['i', 1])], ['setattr', 'Ax', S(['i', 1])], ['setattr', 'x', S(['i', 1])]],
        ivs=[['A', S(['i', 3])]])
     mk(aliases=[['A', 'X']], strict=True, ivs=[['Ax', S(['i', 3])]])
+    # alias names with leading underscores: read / written / solved through like any other alias
+    under = [['_output', '_gdp'], ['_gdp', 'Y'], ['__x', 'X'], ['_a', 'Z']]
+    mk(aliases=under, preferred=['_output', '__x'], ivs=[['_gdp', li(1, 2, 3)], ['__x', S(['i', 7])]],
+       ops=[['getattr', '_gdp'], ['getattr', '_output'], ['setattr', '_output', li(4, 5, 6)], ['getattr', '__x'], ['setitem', ['l', '_gdp', 11], S(['i', 9])],
+            ['setitem', ['sl', '__x', 10, 11, None], li(8, 9)], ['replace', [['_a', S(['i', 2])]]], ['query', ['contains', '_gdp']], ['query', 'completions'],
+            ['query', 'dir'], ['become', 'copy'], ['getattr', '_a'], ['sib', ['setattr', '_gdp', li(0, 0, 0)]], ['getattr', '_output']],
+       reads=[['a', '_gdp'], ['a', '_output'], ['a', '__x'], ['a', '_a'], ['g', ['n', '_gdp']], ['g', ['l', '_output', 11]]], solve=['_output', '__x'])
+    mk(aliases=under, strict=True, ops=[['setattr', '_gdp', li(1, 2, 3)], ['getattr', '_gdp']], reads=[['a', '_output']], solve=['_gdp', '_a'])
+    mk(kind='linker', strict=False, aliases=under, ops=[['setattr', '_output', li(1, 2, 3)], ['getattr', '_gdp']], reads=[['a', '_a'], ['a', '_output']])
     mk(aliases=[['A', 'Q']], ops=[['setattr', 'A', S(['i', 1])], ['addvar', 'Q', S(['i', 1]), None], ['setattr', 'A', S(['i', 2])]],
        reads=[['a', 'A'], ['g', ['n', 'A']]])
     return out
